@@ -20,6 +20,7 @@ Definition defaults_src : source :=
 Definition is_ok (r : cres) : bool := match r with COk _ => true | _ => false end.
 
 Definition is_ystr (v : yval) : bool := match v with YStr _ => true | _ => false end.
+Definition is_ymap (v : yval) : bool := match v with YMap _ => true | _ => false end.
 
 (* the value kinds the property allows for each template type *)
 Definition yval_has_type (ty : oty) (v : yval) : bool :=
@@ -31,7 +32,17 @@ Definition yval_has_type (ty : oty) (v : yval) : bool :=
   | TStrSeq, YStr _ => true
   | TStrSeq, YList l => forallb is_ystr l
   | TOptFilename, YStr _ | TOptFilename, YNull => true
-  | TDict, YMap => true
+  | TDict, YMap _ => true
+  | _, _ => false
+  end.
+
+(* the two documented cases in which the template accepts a value of a type the property
+   does not allow:  F15 (template level only; main() now rejects it through all_contents)
+   a string for a TOptSeq option, and F27 a mapping for a TStrSeq option (its keys are used) *)
+Definition known_exception (ty : oty) (v : yval) : bool :=
+  match ty, v with
+  | TOptSeq, YStr _ => true
+  | TStrSeq, YMap _ => true
   | _, _ => false
   end.
 
@@ -74,10 +85,17 @@ Definition list_items (key : str) (src : source) : list yval :=
   end.
 Definition expected_union (key : str) (stack : list source) : list yval :=
   flat_map (list_items key) stack.
-Definition list_or_unset (key : str) (src : source) : bool :=
+(* what main() accepts as the exclude_filters value of one source: null or a list of strings *)
+Definition excl_value_ok (v : yval) : bool :=
+  match v with
+  | YNull => true
+  | YList l => forallb is_ystr l
+  | _ => false
+  end.
+Definition excl_src_ok (key : str) (src : source) : bool :=
   match assoc key (src_vals src) with
-  | Some (YList _) | None => true
-  | Some _ => false
+  | Some v => excl_value_ok v
+  | None => true
   end.
 
 (* K9: the directory a relative output directory is resolved against *)
@@ -284,21 +302,45 @@ Proof.
     destruct (IH H) as [xs E]. rewrite E. eexists. reflexivity.
 Qed.
 
+Lemma known_exception_spec : forall ty v,
+  known_exception ty v = true <->
+  (ty = TOptSeq /\ is_ystr v = true) \/ (ty = TStrSeq /\ is_ymap v = true).
+Proof.
+  intros ty v. split.
+  - intros H. destruct ty; destruct v; try discriminate H.
+    + left. split; reflexivity.
+    + right. split; reflexivity.
+  - intros [[Et Ev] | [Et Ev]]; subst ty; destruct v; try discriminate Ev; reflexivity.
+Qed.
+
 Theorem wrong_type_rejected : forall cwd rc ty v src,
   yval_has_type ty v = false ->
-  ty <> TOptSeq \/ is_ystr v = false ->
+  known_exception ty v = false ->
   convert cwd rc ty (Some (v, src)) = CTypeError.
 Proof.
   intros cwd rc ty v src H Hex.
   destruct ty; destruct v; cbn [yval_has_type] in H; try discriminate H;
+    cbn [known_exception] in Hex; try discriminate Hex;
     cbn [convert]; try reflexivity.
-  - (* TOptSeq, YStr: excluded *)
-    destruct Hex as [Hn | Hn]; [exfalso; apply Hn; reflexivity | discriminate Hn].
-  - (* TStrSeq, YList with a non-string *)
-    rewrite (all_strs_none _ H). reflexivity.
+  (* TStrSeq, YList with a non-string *)
+  rewrite (all_strs_none _ H). reflexivity.
 Qed.
 
-(* known finding F15: a string for exclude_filters is not rejected *)
+(* the same with the two exceptions spelled out *)
+Corollary wrong_type_rejected_explicit : forall cwd rc ty v src,
+  yval_has_type ty v = false ->
+  ~ (ty = TOptSeq /\ is_ystr v = true) ->
+  ~ (ty = TStrSeq /\ is_ymap v = true) ->
+  convert cwd rc ty (Some (v, src)) = CTypeError.
+Proof.
+  intros cwd rc ty v src H H1 H2. apply wrong_type_rejected; [exact H|].
+  destruct (known_exception ty v) eqn:E; [|reflexivity].
+  apply known_exception_spec in E. destruct E as [E | E]; [destruct (H1 E) | destruct (H2 E)].
+Qed.
+
+(* F15, template level: Optional(list) alone accepts a string (a str is a Sequence).  Since
+   repo commit 58e9c7d main() rejects it all the same, through all_contents: see
+   exclude_filters_string_rejected_by_main below *)
 Example C16_exclude_filters_string_refuted : forall cwd rc,
   exists v src, yval_has_type TOptSeq v = false
                 /\ convert cwd rc TOptSeq (Some (v, src)) <> CTypeError.
@@ -306,17 +348,33 @@ Proof.
   intros cwd rc. exists (YStr (s"build*")), defaults_src. split; [reflexivity | discriminate].
 Qed.
 
-(* the exception is exactly that one *)
-Theorem wrong_type_accepted_only_optseq_str : forall cwd rc ty v src,
+Example exclude_filters_string_accepted_by_template_alone : forall cwd rc x src,
+  yval_has_type TOptSeq (YStr x) = false
+  /\ convert cwd rc TOptSeq (Some (YStr x, src)) = COk (CStrs []).
+Proof. intros cwd rc x src. split; reflexivity. Qed.
+
+(* F27: a mapping given for rst.headers (StrSeq) is accepted; its keys become the headers *)
+Example C16_headers_mapping_refuted : forall cwd rc,
+  exists ks src, yval_has_type TStrSeq (YMap ks) = false
+                 /\ convert cwd rc TStrSeq (Some (YMap ks, src)) = COk (CStrs ks).
+Proof.
+  intros cwd rc. exists [s"#"; s"*"], defaults_src. split; reflexivity.
+Qed.
+
+Example headers_mapping_accepted : forall cwd rc ks src,
+  yval_has_type TStrSeq (YMap ks) = false
+  /\ convert cwd rc TStrSeq (Some (YMap ks, src)) = COk (CStrs ks).
+Proof. intros cwd rc ks src. split; reflexivity. Qed.
+
+(* there are exactly these two exceptions *)
+Theorem wrong_type_accepted_only_two_exceptions : forall cwd rc ty v src,
   yval_has_type ty v = false ->
   convert cwd rc ty (Some (v, src)) <> CTypeError ->
-  ty = TOptSeq /\ is_ystr v = true.
+  (ty = TOptSeq /\ is_ystr v = true) \/ (ty = TStrSeq /\ is_ymap v = true).
 Proof.
-  intros cwd rc ty v src H Hc.
-  destruct ty; destruct v; cbn [yval_has_type] in H; try discriminate H;
-    cbn [convert] in Hc; try (exfalso; apply Hc; reflexivity).
-  - split; reflexivity.
-  - rewrite (all_strs_none _ H) in Hc. exfalso; apply Hc; reflexivity.
+  intros cwd rc ty v src H Hc. apply known_exception_spec.
+  destruct (known_exception ty v) eqn:E; [reflexivity|].
+  exfalso. apply Hc. apply wrong_type_rejected; assumption.
 Qed.
 
 (* conversely, a value of the right type is never rejected *)
@@ -404,18 +462,106 @@ Proof. vm_compute. reflexivity. Qed.
 
 (* ==================== K8: exclude patterns are the union over all sources ==================== *)
 
+Lemma items_of_ok : forall v,
+  excl_value_ok v = true ->
+  items_of v = Some (match v with YList l => l | _ => [] end).
+Proof.
+  intros v H. destruct v; cbn [excl_value_ok] in H; try discriminate H; cbn [items_of].
+  - reflexivity.
+  - destruct (all_strs_some _ H) as [xs E]. rewrite E. reflexivity.
+Qed.
+
+Lemma items_of_bad : forall v, excl_value_ok v = false -> items_of v = None.
+Proof.
+  intros v H. destruct v; cbn [excl_value_ok] in H; try discriminate H; cbn [items_of];
+    try reflexivity.
+  rewrite (all_strs_none _ H). reflexivity.
+Qed.
+
 Theorem exclude_is_union : forall stack key,
-  forallb (list_or_unset key) stack = true ->
+  forallb (excl_src_ok key) stack = true ->
   all_contents stack key = Some (expected_union key stack).
 Proof.
   induction stack as [|a r IH]; intros key H; cbn [all_contents expected_union flat_map].
   - reflexivity.
   - cbn [forallb] in H. apply andb_true_iff in H. destruct H as [Ha Hr].
     specialize (IH key Hr). unfold expected_union in IH. rewrite IH.
-    unfold list_or_unset in Ha. unfold list_items.
+    unfold excl_src_ok in Ha. unfold list_items.
     destruct (assoc key (src_vals a)) as [v|].
-    + destruct v; try discriminate Ha. cbn [items_of]. reflexivity.
+    + rewrite (items_of_ok v Ha). destruct v; reflexivity.
     + reflexivity.
+Qed.
+
+(* main() fails as soon as ANY source (not only the winning one) gives a value that is not
+   null or a list of strings: this closes F15 at the level of main() *)
+Theorem exclude_wrong_type_rejected : forall stack key,
+  (exists src v, In src stack /\ assoc key (src_vals src) = Some v /\ excl_value_ok v = false) ->
+  all_contents stack key = None.
+Proof.
+  induction stack as [|a r IH]; intros key (src & v & Hin & Hv & Hbad).
+  - destruct Hin.
+  - cbn [all_contents]. destruct Hin as [E | Hin].
+    + subst a. rewrite Hv. rewrite (items_of_bad v Hbad). reflexivity.
+    + rewrite (IH key) by (exists src, v; repeat split; assumption).
+      destruct (assoc key (src_vals a)) as [va|]; [|reflexivity].
+      destruct (items_of va); reflexivity.
+Qed.
+
+Theorem exclude_accepted_iff_all_sources_ok : forall stack key,
+  all_contents stack key <> None <-> forallb (excl_src_ok key) stack = true.
+Proof.
+  intros stack key. split.
+  - intros H. apply forallb_forall. intros src Hin. unfold excl_src_ok.
+    destruct (assoc key (src_vals src)) as [v|] eqn:Hv; [|reflexivity].
+    destruct (excl_value_ok v) eqn:Hok; [reflexivity|].
+    exfalso. apply H. apply exclude_wrong_type_rejected.
+    exists src, v. repeat split; assumption.
+  - intros H. rewrite (exclude_is_union stack key H). discriminate.
+Qed.
+
+Corollary exclude_rejected_iff_some_source_bad : forall stack key,
+  all_contents stack key = None <-> forallb (excl_src_ok key) stack = false.
+Proof.
+  intros stack key. destruct (forallb (excl_src_ok key) stack) eqn:E.
+  - apply exclude_accepted_iff_all_sources_ok in E. split; [intros H; destruct (E H) | discriminate].
+  - split; [reflexivity|]. intros _.
+    destruct (all_contents stack key) eqn:A; [|reflexivity].
+    assert (N : all_contents stack key <> None) by (rewrite A; discriminate).
+    apply exclude_accepted_iff_all_sources_ok in N. rewrite N in E. discriminate E.
+Qed.
+
+(* on the four-source stack of main() *)
+Corollary exclude_four_sources : forall args sfile user defaults key,
+  (excl_src_ok key args && excl_src_ok key sfile && excl_src_ok key user && excl_src_ok key defaults = true ->
+   all_contents [args; sfile; user; defaults] key
+   = Some (list_items key args ++ list_items key sfile ++ list_items key user ++ list_items key defaults))
+  /\ (excl_src_ok key args && excl_src_ok key sfile && excl_src_ok key user && excl_src_ok key defaults = false ->
+      all_contents [args; sfile; user; defaults] key = None).
+Proof.
+  intros args sfile user defaults key. split; intros H.
+  - rewrite exclude_is_union.
+    + unfold expected_union. cbn [flat_map]. rewrite app_nil_r. reflexivity.
+    + cbn [forallb]. rewrite andb_true_r. rewrite <- !andb_assoc in H. exact H.
+  - apply exclude_rejected_iff_some_source_bad. cbn [forallb]. rewrite andb_true_r.
+    rewrite <- !andb_assoc in H. exact H.
+Qed.
+
+Corollary exclude_four_sources_wrong_type_rejected : forall args sfile user defaults key src v,
+  In src [args; sfile; user; defaults] ->
+  assoc key (src_vals src) = Some v -> excl_value_ok v = false ->
+  all_contents [args; sfile; user; defaults] key = None.
+Proof.
+  intros args sfile user defaults key src v Hin Hv Hbad. apply exclude_wrong_type_rejected.
+  exists src, v. repeat split; assumption.
+Qed.
+
+(* F15 closed: a string for exclude_filters in any source makes main() fail *)
+Theorem exclude_filters_string_rejected_by_main : forall pre src post key x,
+  assoc key (src_vals src) = Some (YStr x) ->
+  all_contents (pre ++ src :: post) key = None.
+Proof.
+  intros pre src post key x Hv. apply exclude_wrong_type_rejected.
+  exists src, (YStr x). repeat split; [apply in_or_app; right; left; reflexivity | exact Hv].
 Qed.
 
 Lemma in_expected_union : forall stack key src l x,
@@ -427,7 +573,7 @@ Proof.
 Qed.
 
 Corollary exclude_nothing_overridden : forall stack key src l x,
-  forallb (list_or_unset key) stack = true ->
+  forallb (excl_src_ok key) stack = true ->
   In src stack -> assoc key (src_vals src) = Some (YList l) -> In x l ->
   exists u, all_contents stack key = Some u /\ In x u.
 Proof.
@@ -453,10 +599,24 @@ Example exclude_union_nonvacuous :
               src_dir := None |} in
   let f := {| src_kind := SrcFile; src_vals := [(s"input.exclude_filters", YList [YStr (s"tests")])];
               src_dir := Some (s"/cfg") |} in
-  forallb (list_or_unset (s"input.exclude_filters")) [a; f; ex_defaults] = true
-  /\ all_contents [a; f; ex_defaults] (s"input.exclude_filters")
+  let u := {| src_kind := SrcUser; src_vals := [(s"input.exclude_filters", YNull)];
+              src_dir := Some (s"/home/u") |} in
+  forallb (excl_src_ok (s"input.exclude_filters")) [a; f; u; ex_defaults] = true
+  /\ all_contents [a; f; u; ex_defaults] (s"input.exclude_filters")
      = Some [YStr (s"build*"); YStr (s"x"); YStr (s"tests")].
 Proof. vm_compute. split; reflexivity. Qed.
+
+(* a bad value in the LOWEST of the sources that set the key is enough to fail; so is a list
+   with a non-string, a mapping, a number or a boolean *)
+Example exclude_rejection_nonvacuous :
+  let a := {| src_kind := SrcArgs; src_vals := [(s"input.exclude_filters", YList [YStr (s"build*")])];
+              src_dir := None |} in
+  let bad v := {| src_kind := SrcUser; src_vals := [(s"input.exclude_filters", v)];
+                  src_dir := Some (s"/home/u") |} in
+  map (fun v => all_contents [a; bad v; ex_defaults] (s"input.exclude_filters"))
+      [YStr (s"build*"); YList [YStr (s"a"); YInt 1]; YMap [s"a"]; YInt 3; YBool true]
+  = [None; None; None; None; None].
+Proof. vm_compute. reflexivity. Qed.
 
 (* ==================== K9: resolution of the output directory ==================== *)
 
@@ -821,7 +981,7 @@ Theorem wrong_type_not_replaced : forall cwd pre src post k ty v,
   Forall (unset k) pre ->
   assoc k (src_vals src) = Some v ->
   yval_has_type ty v = false ->
-  ty <> TOptSeq \/ is_ystr v = false ->
+  known_exception ty v = false ->
   settings_of cwd (pre ++ src :: post) template = None.
 Proof.
   intros cwd pre src post k ty v Hin Hpre Hv Hty Hex.
@@ -842,7 +1002,7 @@ Definition witness (ty : oty) : yval :=
   | TOptSeq => YList [YStr (s"build*")]
   | TStrSeq => YStr (s"# * =")
   | TOptFilename => YStr (s"out")
-  | TDict => YMap
+  | TDict => YMap [s"version"]
   end.
 Definition ex_full_source : source :=
   {| src_kind := SrcFile; src_vals := map (fun kt => (fst kt, witness (snd kt))) template;
@@ -867,6 +1027,28 @@ Example wrong_type_not_replaced_nonvacuous :
     end) template = true.
 Proof. vm_compute. reflexivity. Qed.
 
+(* both checks of main() together: template validation and the exclude-pattern validation *)
+Lemma defaults_exclude_ok : excl_src_ok (s"input.exclude_filters") defaults_src = true.
+Proof. vm_compute. reflexivity. Qed.
+
+Theorem main_total_on_well_typed : forall cwd upper,
+  forallb (src_well_typed template) upper = true ->
+  forallb (excl_src_ok (s"input.exclude_filters")) upper = true ->
+  settings_of cwd (upper ++ [defaults_src]) template <> None
+  /\ all_contents (upper ++ [defaults_src]) (s"input.exclude_filters")
+     = Some (expected_union (s"input.exclude_filters") (upper ++ [defaults_src])).
+Proof.
+  intros cwd upper Hty Hex. split.
+  - apply settings_total_on_well_typed. exact Hty.
+  - apply exclude_is_union. rewrite forallb_app. rewrite Hex. cbn [forallb andb].
+    rewrite defaults_exclude_ok. reflexivity.
+Qed.
+
+Example main_total_nonvacuous :
+  forallb (src_well_typed template) [ex_partial_source; ex_full_source] = true
+  /\ forallb (excl_src_ok (s"input.exclude_filters")) [ex_partial_source; ex_full_source] = true.
+Proof. vm_compute. split; reflexivity. Qed.
+
 (* ==== MAIN THEOREMS ====
    K1  resolve_first_setting_source, resolve_none
    K2  effective_highest_priority, cli_wins, sfile_wins_over_user, user_wins_over_defaults,
@@ -875,12 +1057,17 @@ Proof. vm_compute. reflexivity. Qed.
    K4  defaults_complete_and_well_typed, defaults_settings_total
    K5  dataclass_fields_match_template
    K6  cli_dests_are_option_paths, absent_flag_sets_nothing, args_source_only_given_flags
-   K7  wrong_type_rejected, C16_exclude_filters_string_refuted, wrong_type_accepted_only_optseq_str,
-       right_type_accepted, wrong_type_not_replaced
-   K8  exclude_is_union, exclude_nothing_overridden, exclude_union_only_from_sources
+   K7  wrong_type_rejected (two documented exceptions: known_exception), wrong_type_rejected_explicit,
+       wrong_type_accepted_only_two_exceptions, right_type_accepted, wrong_type_not_replaced,
+       C16_exclude_filters_string_refuted (F15, template alone),
+       C16_headers_mapping_refuted (F27)
+   K8  exclude_is_union, exclude_wrong_type_rejected, exclude_accepted_iff_all_sources_ok,
+       exclude_rejected_iff_some_source_bad, exclude_four_sources,
+       exclude_four_sources_wrong_type_rejected, exclude_filters_string_rejected_by_main (F15 closed),
+       exclude_nothing_overridden, exclude_union_only_from_sources
    K9  resolve_filename_abs, resolve_filename_rel_cwd, resolve_filename_rel_config,
        resolve_filename_rel_config_nofile, resolve_filename_spec, output_dir_resolution
-   K10 settings_total_on_well_typed
+   K10 settings_total_on_well_typed, main_total_on_well_typed
 *)
 Print Assumptions resolve_first_setting_source.
 Print Assumptions resolve_none.
@@ -898,11 +1085,21 @@ Print Assumptions cli_dests_are_option_paths.
 Print Assumptions absent_flag_sets_nothing.
 Print Assumptions args_source_only_given_flags.
 Print Assumptions wrong_type_rejected.
-Print Assumptions C16_exclude_filters_string_refuted.
-Print Assumptions wrong_type_accepted_only_optseq_str.
+Print Assumptions wrong_type_rejected_explicit.
+Print Assumptions wrong_type_accepted_only_two_exceptions.
+Print Assumptions right_type_accepted.
 Print Assumptions wrong_type_not_replaced.
+Print Assumptions C16_exclude_filters_string_refuted.
+Print Assumptions C16_headers_mapping_refuted.
 Print Assumptions exclude_is_union.
+Print Assumptions exclude_wrong_type_rejected.
+Print Assumptions exclude_accepted_iff_all_sources_ok.
+Print Assumptions exclude_rejected_iff_some_source_bad.
+Print Assumptions exclude_four_sources.
+Print Assumptions exclude_four_sources_wrong_type_rejected.
+Print Assumptions exclude_filters_string_rejected_by_main.
 Print Assumptions exclude_nothing_overridden.
 Print Assumptions output_dir_resolution.
 Print Assumptions resolve_filename_spec.
 Print Assumptions settings_total_on_well_typed.
+Print Assumptions main_total_on_well_typed.
